@@ -204,12 +204,14 @@ func init() {
 			"new-vs-inplace (allocating ...New variant against the in-place form), boundary operands x:<name> (0, 1, -1, MinInt64, MaxUint64, unreduced, huge negative big.Int, short vectors, sparse plaintext / ciphertext; level 0; shifts 0, N-1, beyond 2N), " +
 			"sequence/<alias form> (random 60-step programs on ONE evaluator - replaced now and then by a ShallowCopy / WithKey of itself - and a pool of 5 reused ciphertext objects: every step against the same call on a fresh evaluator with distinct copies and a fresh output of the level of the actual output; every other pool object snapshotted). " +
 			"After the reference run of every evaluator row the output is overwritten and the arguments re-snapshotted (output-shares-storage). " +
+			"The same holds for every other row whose call produces an output OBJECT (multiparty GenShare / AggregateShares / finalisers, Thresholdizer / Combiner, key generator, encryptor, decryptor, encoders, rlwe.Element functions, ring-degree switching, hoisted rotations, RGSW functions, ring.Ring operations, basis extension, linear-transformation and polynomial front ends): every []uint64 array reachable by reflection from the output (polynomial rows, gadget ciphertexts, maps / slices of elements, words of big-integer shares) is XORed with a pattern and every rlwe.MetaData of the output replaced, the arguments are re-snapshotted (output-shares-storage), then the output is put back. " +
 			"Oracle: the output of every aliasing / history run must equal the output of the run with distinct fresh objects (canonical residues mod q_i, level, degree after removing identically-zero trailing components, metadata with the scale compared as an exact number); accumulating methods are compared with the run whose accumulator is a distinct copy; randomised operations are repeated under an identically re-seeded crypto/rand. An error returned for an aliased call is accepted, a panic is not. " +
 			"distinct key = (API entry point, pattern, operand kind, scale/level/degree variant, parameter set); non-trivial = any key whose pattern is an aliasing or history pattern, or a fresh-pattern key whose checked argument is a pointer, slice, ciphertext, plaintext, key or share (value scalars such as int / float64 operands in the fresh pattern are trivial).",
 		Cases: cases,
 		Assumptions: []string{
 			"reflection + unsafe deep snapshots see every word reachable from an argument (maps, slices, pointers, big.Int/big.Float internals)",
 			"a mutation of an input that is exactly restored before the call returns is not observable",
+			"output independence: documented sharing is not judged - rlwe.NewElementAtLevelFromPoly (\"the returned Element will share its backing array of coefficients\"), in-place operations and accumulators, the out=in / out=share patterns; rlwe.Scale / rlwe.MetaData are value types copied by assignment, so the mantissa words of a big.Float scale may be shared between an argument and the output; an output that shares storage with a scratch buffer of the evaluator / protocol object (not an argument) is left to the history patterns",
 			"documented in-place methods are whitelisted: DropLevel, SetScale, MatchScalesAndLevel (both arguments), FFT/IFFT, accumulators of ...ThenAdd; ring automorphisms are documented as not in-place and only run with distinct polynomials; BFV Rescale is a documented nop",
 			"operand domains are the documented ones (scales with integer or near-1 ratios, plaintext slices no longer than the slot count, levels >= the depth of the operation)",
 			"a panic or error of the plain call with distinct fresh arguments is outside C09 (counted as baseline_panics_not_judged / errors_observed / baseline_error:<api>)",
